@@ -1,0 +1,36 @@
+//go:build verif
+
+// Copyright (c) Microsoft Corporation.
+// Licensed under the MIT License.
+
+package cmd
+
+import (
+	"os"
+	"strconv"
+	"strings"
+	"time"
+)
+
+// verifHook is compiled only with the "verif" build tag. It lets the /verif watch-mode check
+// force a particular interleaving: when the file named by VERIF_WATCH_DELAY_FILE exists, the
+// regeneration that reaches the hook first removes it and sleeps for the number of milliseconds it
+// contains, so that a later regeneration overtakes it.
+func verifHook(point string) {
+	name := os.Getenv("VERIF_WATCH_DELAY_FILE")
+	if name == "" || point != "after-validate" {
+		return
+	}
+	data, err := os.ReadFile(name)
+	if err != nil {
+		return
+	}
+	if os.Remove(name) != nil {
+		return
+	}
+	ms, err := strconv.Atoi(strings.TrimSpace(string(data)))
+	if err != nil {
+		return
+	}
+	time.Sleep(time.Duration(ms) * time.Millisecond)
+}
